@@ -33,7 +33,9 @@ Inductive wcomp :=
 | KWTimeEqualO       (* !w.F.Equal(o.G) *)
 | KNe                (* w.F != o.G *)
 | KUrlLinks.         (* if IsNil(o.G) { result = false; return nil }
-                        if !w.F.GetLink().Equals(o.G.GetLink(), false) { result = false; return nil } *)
+                        if !w.F.GetLink().Equals(o.G.GetLink(), false) { result = false; return nil }
+                        (Object.Equals on url before the fix; still recognised by the translator, rejected by
+                        cmp_of_raw) *)
 
 Record rawcmp := mkraw {
   rw_guard : wguard; rw_gfield : fid;       (* the guard and the field of w it tests *)
@@ -87,7 +89,10 @@ Definition cmp_of_raw (self : kind) (r : rawcmp) : option cmp :=
         | _ => Some (CItems f)
         end
     | TItems, WNeNil, KOEqualsW => match f with F_OrderedItems => Some COrdItems | _ => None end
-    | TItem, WNotIsNil, KUrlLinks => match f with F_URL => Some CUrl | _ => None end
+    (* url: ItemsEqual like its siblings, under the IsNil guard.  The shape of the code before the fix
+       (WNotIsNil, KUrlLinks: compared by GetLink() only) has no reading in the model any more: a source that goes
+       back to it fails the condition *)
+    | TItem, WNotIsNil, KItemsEqual => match f with F_URL => Some CUrl | _ => None end
     | TTime, WNotIsZero, KWTimeEqualO => Some (CTime f)
     | TDur, WNe0, KNe => Some (CDur f)
     | TUint, WGt0, KNe => Some (CUint f)
